@@ -1,5 +1,8 @@
 mod c22;
+mod c23;
 mod c54;
+mod c55;
+mod c56;
 mod selftest;
 mod util;
 
@@ -7,6 +10,9 @@ fn main() {
     vmon::run_main(&[
         ("SELFTEST", selftest::run),
         ("C22", c22::run),
+        ("C23", c23::run),
         ("C54", c54::run),
+        ("C55", c55::run),
+        ("C56", c56::run),
     ]);
 }
